@@ -7,6 +7,7 @@ use fuel_asm::{op, Instruction, RegId};
 use fuel_tx::{ConsensusParameters, GasCosts, Script, TransactionBuilder, TxParameters};
 use fuel_vm::{
     checked_transaction::Checked,
+    state::ProgramState,
     interpreter::{InterpreterParams, MemoryInstance},
     prelude::*,
     storage::MemoryStorage,
@@ -75,6 +76,8 @@ pub fn record(o: &Opts) -> Res<()> {
     if want("calls") { calls(o, &mut out, &mut run); }
     if want("assets") { assets(o, &mut out, &mut run); }
     if want("client") { client(o, &mut out, &mut run); }
+    if want("reuse") { reuse(o, &mut out, &mut run); }
+    if want("debug") { debug(o, &mut out, &mut run); }
     let n = out.finish();
     eprintln!("vm: {n} events");
     Ok(())
@@ -712,6 +715,165 @@ fn client(o: &Opts, out: &mut Out, run: &mut u64) {
                 out.ev(json!({"ev": "RunSummary", "run": *run, "loops": cnt, "nrc": rc.len(), "logs": rc.iter().filter(|r| matches!(r, fuel_tx::Receipt::Log { .. })).count(), "tail": tail}));
             }
             Err(m) => out.ev(json!({"ev": "HostPanic", "where": "receipt-limit", "msg": m})),
+        }
+    }
+}
+
+/// a transaction with a contract that reads/writes storage, logs and returns (storage changes are observable)
+fn storage_tx(rng: &mut StdRng, seed: u64) -> (TestBuilder, ContractId, Vec<Instruction>, Vec<u8>) {
+    let mut tb = TestBuilder::new(seed);
+    let r = |k: u8| RegId::new(0x10 + k);
+    let mut code = vec![op::movi(r(4), 64), op::aloc(r(4)), op::movi(r(1), rng.gen_range(1..0x40000)), op::sb(RegId::HP, r(1), 31)];
+    for _ in 0..rng.gen_range(1..5) {
+        match rng.gen_range(0..5) {
+            0 => code.push(op::sww(RegId::HP, r(2), r(1))),
+            1 => code.push(op::srw(r(3), r(2), RegId::HP, 0)),
+            2 => { code.push(op::movi(r(5), rng.gen_range(1..50))); code.push(op::addi(r(6), RegId::HP, 32)); code.push(op::mint(r(5), r(6))); }
+            3 => code.push(op::log(r(3), r(2), RegId::CGAS, RegId::HP)),
+            _ => { code.push(op::addi(r(1), r(1), 3)); code.push(op::sb(RegId::HP, r(1), 30)); }
+        }
+    }
+    match rng.gen_range(0..6) { 0 => code.push(op::rvrt(RegId::ONE)), 1 => code.push(op::sw(RegId::ZERO, RegId::ONE, 0)), _ => code.push(op::ret(r(3))) }
+    let slots = vec![fuel_tx::StorageSlot::new([0u8; 32].into(), [7u8; 32].into())];
+    let c1 = tb.setup_contract(code, None, if rng.gen_bool(0.5) { Some(slots) } else { None }).contract_id;
+    let data = Call::new(c1, 0, 0).to_bytes();
+    let mut sc = vec![op::movi(r(9), [8u32, 1000, 200_000][rng.gen_range(0..3)]), op::aloc(r(9)), op::cfei([16u32, 4096][rng.gen_range(0..2)]),
+                      op::gtf_args(r(0), RegId::ZERO, GTFArgs::ScriptData), op::call(r(0), RegId::ZERO, RegId::ZERO, RegId::CGAS)];
+    if rng.gen_bool(0.3) { sc.push(op::call(r(0), RegId::ZERO, RegId::ZERO, RegId::CGAS)); }
+    sc.push(op::log(RegId::RET, RegId::RETL, RegId::HP, RegId::SP));
+    sc.push(op::ret(RegId::RET));
+    (tb, c1, sc, data)
+}
+
+fn build_storage_tx(tb: &mut TestBuilder, c1: ContractId, sc: Vec<Instruction>, data: Vec<u8>, gas: u64) -> Option<Checked<Script>> {
+    tb.start_script(sc, data).gas_price(0).script_gas_limit(gas).contract_input(c1).fee_input().contract_output(&c1);
+    catch(std::panic::AssertUnwindSafe(|| tb.build())).ok()
+}
+
+/// C31: the same ready transaction against equal storage on a fresh interpreter (reference, single-stepped and fully validated)
+/// and on instances that were used before for other transactions (large heaps, deep stacks, warm slot caches, panics)
+fn reuse(o: &Opts, out: &mut Out, run: &mut u64) {
+    use fuel_vm::memory_client::MemoryClient;
+    let thorough = o.thorough();
+    let mut rng = o.rng(31);
+    let n = if thorough { 200 } else { 24 };
+    for k in 0..n {
+        let (mut tb, c1, sc, data) = storage_tx(&mut rng, o.seed.wrapping_mul(131).wrapping_add(k as u64));
+        let gas = if rng.gen_range(0..5) == 0 { rng.gen_range(300..5000) } else { 1_000_000 };
+        let target = match build_storage_tx(&mut tb, c1, sc.clone(), data.clone(), gas) { Some(c) => c, None => continue };
+        let minted: AssetId = { use fuel_tx::ContractIdExt; c1.default_asset() };
+        let watch = [minted, AssetId::zeroed()];
+        let post = move |vm: &Vm<MemoryStorage>| -> serde_json::Value { storage_dump(vm.as_ref(), &[c1], &watch) };
+        let mut base = tb.get_storage().clone();
+        base.commit();
+        let w = World { params: ConsensusParameters::standard(), gas_price: 0, storage: base.clone(), block_height: u32::from(tb.get_block_height()) };
+        // the reused instance: history first
+        let mut used = new_vm(&w);
+        let hist_n = rng.gen_range(1..4);
+        let mut hist_desc = vec![];
+        for h in 0..hist_n {
+            let kind = rng.gen_range(0..4);
+            let checked = match kind {
+                0 => { // a different storage transaction on the same contract (warms the slot cache, may panic / revert)
+                    let (_, _, sc2, _) = storage_tx(&mut rng, 999 + h);
+                    build_storage_tx(&mut tb, c1, sc2, data.clone(), 1_000_000)
+                }
+                1 => simple_script(&w, &mut rng, asm(vec![op::movi(RegId::new(0x10), 0x3ffff), op::aloc(RegId::new(0x10)), op::aloc(RegId::new(0x10)), op::sb(RegId::HP, RegId::ONE, 0), op::cfei(0xffff), op::sw(RegId::SSP, RegId::ONE, 100), op::ret(RegId::ONE)]), vec![], 1_000_000).ok(),
+                2 => { let code = gen_program(&mut rng); let d = rbytes(&mut rng, 16); simple_script(&w, &mut rng, code, d, 3000).ok() }
+                _ => simple_script(&w, &mut rng, asm(vec![op::sw(RegId::ZERO, RegId::ONE, 0)]), vec![], 1000).ok(),
+            };
+            if let Some(c) = checked { hist_desc.push(kind); let _ = run_plain(&mut used, &w, c); }
+        }
+        // storage as the reused instance sees it now = the storage both executions start from
+        let start: MemoryStorage = { let s: &MemoryStorage = used.as_ref(); s.clone() };
+        let w2 = World { params: ConsensusParameters::standard(), gas_price: 0, storage: start.clone(), block_height: w.block_height };
+        *run += 1;
+        let ref_run = *run;
+        out.ev(json!({"ev": "Seg"}));
+        let mut fresh = new_vm(&w2);
+        let extra = json!({"driver": "reuse", "contracts": contracts_json(&start, &[c1], &watch), "inputs": [hx(c1)]});
+        record_run_with(out, ref_run, &mut fresh, &w2, target.clone(), extra, 20_000, Some(&post));
+        // reused interpreter
+        match run_plain(&mut used, &w2, target.clone()) {
+            Ok(st) => out.ev(json!({"ev": "Replica", "of": ref_run, "kind": "reused-interpreter", "history": hist_desc, "final": final_json(&used, &st, Some(&post))})),
+            Err(m) => out.ev(json!({"ev": "HostPanic", "where": "reused-interpreter", "msg": m})),
+        }
+        // a second fresh interpreter, un-stepped (no debugger at all)
+        let mut fresh2 = new_vm(&w2);
+        match run_plain(&mut fresh2, &w2, target.clone()) {
+            Ok(st) => out.ev(json!({"ev": "Replica", "of": ref_run, "kind": "fresh-plain", "final": final_json(&fresh2, &st, Some(&post))})),
+            Err(m) => out.ev(json!({"ev": "HostPanic", "where": "fresh-plain", "msg": m})),
+        }
+        // a memory client reused after another transaction: compare receipts only (its storage commit/revert is C28's subject)
+        let mut cl: MemoryClient<MemoryInstance> = MemoryClient::new(MemoryInstance::new(), start.clone(), InterpreterParams::new(0, &w2.params));
+        if let Ok(c) = simple_script(&w2, &mut rng, asm(vec![op::movi(RegId::new(0x10), 70_000), op::aloc(RegId::new(0x10)), op::ret(RegId::ONE)]), vec![], 100_000) { let _ = catch(std::panic::AssertUnwindSafe(|| { cl.transact(c); })); }
+        match catch(std::panic::AssertUnwindSafe(|| cl.transact(target.clone()).iter().map(|r| json!(hx(r.to_bytes()))).collect::<Vec<_>>())) {
+            Ok(rc) => out.ev(json!({"ev": "ReplicaReceipts", "of": ref_run, "kind": "reused-memory-client", "rc_all": rc})),
+            Err(m) => out.ev(json!({"ev": "HostPanic", "where": "reused-memory-client", "msg": m})),
+        }
+    }
+}
+
+/// C32: plain execution vs single-stepping (reference) vs breakpoint sets, resuming after every debug event
+fn debug(o: &Opts, out: &mut Out, run: &mut u64) {
+    use fuel_vm::state::{Breakpoint, DebugEval};
+    let thorough = o.thorough();
+    let mut rng = o.rng(32);
+    let n = if thorough { 200 } else { 24 };
+    for k in 0..n {
+        let (mut tb, c1, mut sc, data) = storage_tx(&mut rng, o.seed.wrapping_mul(137).wrapping_add(k as u64));
+        if rng.gen_bool(0.5) { // a tight loop whose target carries a breakpoint
+            let r = |k: u8| RegId::new(0x10 + k);
+            let mut l = vec![op::movi(r(20), rng.gen_range(1..5)), op::subi(r(20), r(20), 1), op::jnzb(r(20), RegId::ZERO, 0)];
+            l.extend(sc); sc = l;
+        }
+        let gas = if rng.gen_range(0..6) == 0 { rng.gen_range(300..5000) } else { 1_000_000 };
+        let target = match build_storage_tx(&mut tb, c1, sc.clone(), data.clone(), gas) { Some(c) => c, None => continue };
+        let minted: AssetId = { use fuel_tx::ContractIdExt; c1.default_asset() };
+        let watch = [minted, AssetId::zeroed()];
+        let post = move |vm: &Vm<MemoryStorage>| -> serde_json::Value { storage_dump(vm.as_ref(), &[c1], &watch) };
+        let mut base = tb.get_storage().clone();
+        base.commit();
+        let w = World { params: ConsensusParameters::standard(), gas_price: 0, storage: base.clone(), block_height: u32::from(tb.get_block_height()) };
+        *run += 1;
+        let ref_run = *run;
+        out.ev(json!({"ev": "Seg"}));
+        let mut fresh = new_vm(&w);
+        let extra = json!({"driver": "debug", "contracts": contracts_json(&base, &[c1], &watch), "inputs": [hx(c1)]});
+        record_run_with(out, ref_run, &mut fresh, &w, target.clone(), extra, 20_000, Some(&post));
+        // plain
+        let mut plain = new_vm(&w);
+        match run_plain(&mut plain, &w, target.clone()) {
+            Ok(st) => out.ev(json!({"ev": "Replica", "of": ref_run, "kind": "no-debugger", "final": final_json(&plain, &st, Some(&post))})),
+            Err(m) => out.ev(json!({"ev": "HostPanic", "where": "no-debugger", "msg": m})),
+        }
+        // breakpoint sets: script locations (contract id zero) and locations inside the called contract
+        for _ in 0..(if thorough { 4 } else { 2 }) {
+            let mut bps: Vec<(ContractId, u64)> = vec![];
+            for _ in 0..rng.gen_range(1..5) {
+                if rng.gen_bool(0.6) { bps.push((ContractId::zeroed(), rng.gen_range(0..(sc.len() as u64 + 1)))); }
+                else { bps.push((c1, rng.gen_range(0..12))); }   // instruction indices
+            }
+            let mut vm = new_vm(&w);
+            for (c, pc) in &bps { vm.set_breakpoint(Breakpoint::new(*c, *pc)); }
+            let ready = match target.clone().into_ready(0, w.params.gas_costs(), w.params.fee_params(), Some(w.block_height.into())) { Ok(r) => r, Err(_) => continue };
+            let mut breaks: Vec<serde_json::Value> = vec![];
+            let mut st = match catch(std::panic::AssertUnwindSafe(|| vm.transact(ready).map(|s| *s.state()))) { Ok(s) => s, Err(m) => { out.ev(json!({"ev": "HostPanic", "where": "breakpoints", "msg": m})); continue } };
+            let mut guard = 0;
+            loop {
+                match &st {
+                    Ok(ProgramState::RunProgram(DebugEval::Breakpoint(b))) | Ok(ProgramState::VerifyPredicate(DebugEval::Breakpoint(b))) => {
+                        breaks.push(json!([hx(b.contract()), b.pc().to_string()]));
+                    }
+                    Ok(ProgramState::RunProgram(_)) | Ok(ProgramState::VerifyPredicate(_)) => {}
+                    _ => break,
+                }
+                guard += 1;
+                if guard > 100_000 { break; }
+                st = match catch(std::panic::AssertUnwindSafe(|| vm.resume())) { Ok(s) => s, Err(m) => { out.ev(json!({"ev": "HostPanic", "where": "breakpoints-resume", "msg": m})); break } };
+            }
+            out.ev(json!({"ev": "BpRun", "of": ref_run, "bps": bps.iter().map(|(c, pc)| json!([hx(c), (pc * 4).to_string()])).collect::<Vec<_>>(),
+                          "breaks": breaks, "final": final_json(&vm, &st, Some(&post))}));
         }
     }
 }
